@@ -234,6 +234,7 @@ func run(r *mon.Run) {
 		mem := append([]byte{}, buf.Bytes()...)
 		var src io.Reader = bytes.NewReader(mem)
 		readNo++
+		twoStep := readNo%5 == 4 // the exported two-step route: prologue first, then the caller reads the payload from its own reader
 		switch readNo % 4 {
 		case 1:
 			src = iotest.OneByteReader(bytes.NewReader(mem))
@@ -242,7 +243,13 @@ func run(r *mon.Run) {
 		case 3:
 			src = bytes.NewBuffer(mem)
 		}
-		p, pv = r.Call(fmt.Sprintf("read/%d", i), buf.Bytes(), func() { back, err = signedexchange.ReadExchange(src) })
+		p, pv = r.Call(fmt.Sprintf("read/%d", i), buf.Bytes(), func() {
+			if !twoStep {
+				back, err = signedexchange.ReadExchange(src)
+			} else if back, err = signedexchange.ReadExchangePrologue(src); err == nil {
+				back.Payload, err = io.ReadAll(src)
+			}
+		})
 		for k := range mem {
 			mem[k] = 0xCC
 		}
